@@ -77,24 +77,18 @@ func propC21(c *Check) {
 		starts = append(starts, callInstrs(findCalls(f, "(*kernel.Node).finalizeNodeAcceptSnapshot"))...)
 		ok := len(starts) == 2 && len(reload) >= 1
 		var bad []string
+		// allowed skip: the multi-transaction (batchable) case, i.e. the true edge of len(found) != 1 / > 1
+		for _, m := range []VM{Bin(token.NEQ, Len(AnyV), ConstInt(1)), Bin(token.GTR, Len(AnyV), ConstInt(1))} {
+			for _, i := range findIfs(f, m) {
+				cut[Edge{i.Block().Index, i.Block().Succs[0].Index}] = true
+			}
+		}
 		for _, st := range starts {
 			seen := reachable(f, st.Block(), cut)
 			for bi := range seen {
 				b := f.Blocks[bi]
 				r, isRet := b.Instrs[len(b.Instrs)-1].(*ssa.Return)
-				if !isRet || b == f.Recover || reload[bi] {
-					continue
-				}
-				if isRejectReturn(f, r) {
-					continue
-				}
-				// allowed skip: more than one transaction (batchable classes only)
-				multi := dominatedByBranch(f, b, Bin(token.NEQ, Len(AnyV), ConstInt(1)), true) || dominatedByBranch(f, b, Bin(token.GTR, Len(AnyV), ConstInt(1)), true)
-				if multi {
-					continue
-				}
-				// the return belongs to a branch taken before the finalisation (not dominated by the start)
-				if !st.Block().Dominates(b) {
+				if !isRet || b == f.Recover || reload[bi] || isRejectReturn(f, r) {
 					continue
 				}
 				bad = append(bad, instrPos(w, r))
